@@ -145,10 +145,7 @@ var hashioImpl = map[string]core.Adapter{
 		data := []byte(core.MustUnHex(a[2]))
 		w, err := fh.Verifier()
 		if err != nil {
-			if strings.Contains(err.Error(), "unknown algorithm") {
-				return "unsupported"
-			}
-			return "badhex"
+			return "err" // unsupported algorithm or malformed hex text: error texts are not compared
 		}
 		// arbitrary chunking derived from the data itself
 		for i, step := 0, 1+len(data)%7; i < len(data); i += step {
